@@ -4,7 +4,7 @@
    with library-generated names for the inner simplices) and every applicable request; the
    unbounded statement is tested by the oracle (evidence: tested_only). *)
 From Coq Require Import String ZArith Bool Arith List.
-From SV Require Import Names NamesFacts Rep Complex Homology Filtration Gen World Small Sweeps RepInv Shapes AddEffect CopyFaithful DelEffect Duality DeleteEffect.
+From SV Require Import Names NamesFacts Rep Complex Homology Filtration Gen World Small Sweeps RepInv Shapes AddEffect CopyFaithful DelEffect Duality DeleteEffect VInv AwbSpec VReach.
 
 (* building by basis gives exactly the non-empty subsets of the given simplices, a well-formed
    complex whose views agree *)
@@ -95,3 +95,19 @@ Theorem C02_delete_exact_effect :
      orderOf r' t = orderOf r t /\ forall u, In u (faces r' t) <-> In u (faces r t)).
 Proof. exact deleteSimplex_effect. Qed.
 Print Assumptions C02_delete_exact_effect.
+
+(* ADD BY BASIS, EVERY COMPLEX THAT MEETS THE VERTEX-SET READING (C01_vertex_set_reading_at_every_point)
+   AND EVERY DUPLICATE-FREE BASIS OF AT LEAST TWO NAMES: when the request is accepted, the simplex on
+   exactly bs is in the complex under the returned name; every simplex that was there keeps its order,
+   faces and basis; every simplex that is new lies inside bs and has a point set no earlier simplex
+   had -- i.e. exactly the missing subsets of bs can have been added; and the reading still holds *)
+Theorem C02_add_by_basis_effect :
+  forall r bs id attr r' n, vinv r -> NoDup bs -> 2 <= length bs ->
+  c_addSimplexWithBasis r bs id attr = (r', Ok n) ->
+  vinv r' /\ containsSimplex r' n = true /\ (forall p, In p (basisOf r' n) <-> In p bs) /\
+  (forall t, containsSimplex r t = true ->
+     containsSimplex r' t = true /\ orderOf r' t = orderOf r t /\ faces r' t = faces r t /\ basisOf r' t = basisOf r t) /\
+  (forall t, containsSimplex r' t = true -> containsSimplex r t = false ->
+     incl (basisOf r' t) bs /\ forall u, containsSimplex r u = true -> ~ (forall p, In p (basisOf r u) <-> In p (basisOf r' t))).
+Proof. exact add_by_basis_effect. Qed.
+Print Assumptions C02_add_by_basis_effect.
